@@ -398,6 +398,16 @@ def gen_cases(chk):
     for n in ("a_", "a__", "a__b", "if_", "max__len", "done_?", "x_!", "_a_", "_a__b", "A_", "a1_2__3", "_p_?", "z__"):
         c.name(n)
     # interpolated strings: every piece (before, between, after the interpolations) is decoded / refused alike
+    # braces, hashes and quotes-like characters at the start / end of a piece are ordinary characters
+    for frag in ("}", "{", "}}", "{{", "}{", "{a}", "`", "'", "|", "$"):
+        for where in range(3):
+            parts = ["h", "m", "t"]
+            parts[where] = frag
+            c.emb_case(parts)
+            parts[where] = frag + "z"
+            c.emb_case(parts)
+            parts[where] = "z" + frag
+            c.emb_case(parts)
     for ch in "nrt\\\"0dq x":
         esc = "\\" + ch
         for where in range(3):
@@ -524,6 +534,10 @@ def main(chk):
                     % (n1.rstrip("?"), n2.rstrip("?"), s1, s2, n1.rstrip("?"), n2.rstrip("?"), n1, n2, n1, n2, n1, n2))
             pair_progs.append(prog)
             pair_meta.append((n1, n2))
+            if not n1.endswith("?"):
+                # the same two names as top-level variables of a source evaluated with evalEnv: both are in the result
+                pair_progs.append('e := "%s := 1\\n%s := 2".evalEnv\n[e[\'%s], e[\'%s], e.keys(private?: true).len, e[\'%s] + 2, e[\'%s] + 2, false, 2]' % (n1, n2, n1, n2, n1, n2))
+                pair_meta.append((n1 + " (evalEnv)", n2))
     pouts = harness("eval", [{"src": p_} for p_ in pair_progs], shards=NCPU)
     for prog, (n1, n2), o in zip(pair_progs, pair_meta, pouts):
         hist["name-pair"] = hist.get("name-pair", 0) + 1
